@@ -97,8 +97,8 @@ theorem finishGen_demes {t1 t' : T} {id : Id} {lc : LevelCfg} {q : List Id} {don
           simp only [Except.ok.injEq] at h
           subst h
           refine ⟨(fun d => { d with active := d.active && !(gv || lv) }) ∘
-              (fun d => { d with hist := d.hist ++ [[gen]], active := d.active && true }),
-            (grow_deact _).comp (grow_append [gen] true), ?_, rfl, rfl, rfl, rfl, rfl, rfl, ?_, fun _ => rfl⟩
+              (fun d => { d with hist := d.hist ++ [pending ++ [gen]], active := d.active && true }),
+            (grow_deact _).comp (grow_append (pending ++ [gen]) true), ?_, rfl, rfl, rfl, rfl, rfl, rfl, ?_, fun _ => rfl⟩
           · simp only [T.update, appendHist]
             exact updFirst_comp _ _ _ _ (fun _ => rfl)
           · intro hs; simp [T.update, appendHist, hs]
@@ -318,7 +318,7 @@ structure SproutEffect (t t' : T) (flat : List (Id × Ind)) : Prop where
 
 theorem createDeme_lvlId {t t' : T} {p : Deme} {seed : Option Ind} {env : NewEnv}
     (h : createDeme t (some p) seed env = .ok t') (hp : p.level = p.id.length) (hl : LvlId t) : LvlId t' := by
-  obtain ⟨old, d, hd, hf, _, _, hlev, hid, _⟩ := (createDeme_effect h).demes
+  obtain ⟨old, d, hd, hf, _, _, _, hlev, hid, _⟩ := (createDeme_effect h).demes
   intro x hx
   rw [hd] at hx
   rcases List.mem_append.mp hx with hx | hx
@@ -355,7 +355,7 @@ theorem doSprout_effect {t t' : T} {flat : List (Id × Ind)} {news : List NewEnv
         · rename_i t1 hc
           have ce := createDeme_effect hc
           have ie := ih h
-          obtain ⟨old1, d1, hd1, hf1, _, _, hlev1, _, hact1, hhib1, hst1, hseed1, hpar1, _, invs1, hlog1, _, hbox1, _⟩ := ce.demes
+          obtain ⟨old1, d1, hd1, hf1, _, _, _, hlev1, _, hact1, hhib1, hst1, hseed1, hpar1, _, invs1, hlog1, _, hbox1, _⟩ := ce.demes
           obtain ⟨invs2, hlog2, hbox2⟩ := ie.log
           obtain ⟨old2, nd2, hd2, hf2, hnew2⟩ := ie.demes
           have hpm := find_some_mem (show t.demes.find? (·.id == pid) = some p' from hfind)
